@@ -29,6 +29,21 @@ CHECKS = {
  'C05': dict(technique='differential runtime check of from_game/from_game_or_none/get_hand/get_up_hand against brute force under each composition rule',
              text='Held on >10^5 generated (hole, board) inputs per quick run (biased towards pairs, flushes, lows, no-low boards; several argument forms incl. one-shot iterators) and on sampled played states.',
              note='Strength from the C04 reference evaluator; Greek hold\'em with exactly two hole cards.', ref='DESIGN.md §2 C05'),
+ 'C09': dict(technique='twin run: automated execution vs manual re-execution of its log with default arguments on the same keyed deck, compared record by record and state by state',
+             text='Held on the generated twin pairs (quick: random subsets; thorough: all 2048 subsets round robin): every operation record, every decision-point state and the final state are equal.',
+             note='Deterministic keyed shuffle installed by the harness.', ref='DESIGN.md §2 C09'),
+ 'C10': dict(technique='online trace checker per street instance derived from the Street tuple (burn/hole/board/draw bookkeeping, default dealee order, no actor before dealing completes, fallback)',
+             text='Held on the generated executions: every dealing operation of tens of thousands of streets agrees with what the street definition prescribes for the players live at street start.',
+             note='Default dealee in draw rounds: first player still owed cards.', ref='DESIGN.md §2 C10'),
+ 'C12': dict(technique='twin run (automatic show/muck/kill vs everybody tables) + reference floor shares with every hand tabled + direct check that no winning hand is mucked or killed',
+             text='Held on the generated showdowns (side pots, ties, hi-lo, multi-board, run-outs): payoffs equal the everybody-tables twin, every winner was shown in full, tournament show constraints probed at every showdown decision.',
+             note='Hand strength from the engine evaluator (C04/C05); floor-share oracle only without rake.', ref='DESIGN.md §2 C12'),
+ 'C14': dict(technique='trace + terminal-structure monitor for run-out selection, consensus rule and board structure',
+             text='Held on the generated all-in hands: who is offered the selection and when, the agreed count, b*r complete boards sharing exactly the pre-all-in cards, operation counts after the all-in, even split of pots over boards.',
+             note='Run-out counts limited to what the deck can serve.', ref='DESIGN.md §2 C14'),
+ 'C15': dict(technique='replay of the reported log on a fresh un-automated state, double execution, and deepcopy divergence with identity scan of mutable containers',
+             text='Held on the generated histories: log replay reproduces every record and all state fields; re-execution is identical; copies share no container, do not change with the original, respond identically, and divergent continuations equal fresh replays.',
+             note='Equality over all dataclass fields except automations and the divmod/rake callables.', ref='DESIGN.md §2 C15'),
 }
 PENDING_REASON = 'check not built yet in this revision (runtime monitor planned, see DESIGN.md §2); not claimed until it exists'
 
